@@ -281,7 +281,14 @@ int64_t cmb_resource_preempt(struct cmb_resource *rp)
     cmb_logger_info(stdout, "Preempting resource %s", hrp->base.name);
 
     struct cmb_process *victim = rp->holder;
-    if (victim == NULL) {
+    if (victim == pp) {
+        /* We hold it already, nobody to take it from (and certainly not from
+         * ourselves, cancelling our own timers and notifying ourselves that we
+         * lost what we still hold) */
+        cmb_logger_info(stdout, "Preempt by the holder of %s itself", hrp->base.name);
+        ret = CMB_PROCESS_SUCCESS;
+    }
+    else if (victim == NULL) {
         /* Easy, grab it */
         cmb_logger_info(stdout, "Preempt found %s free", hrp->base.name);
         resource_grab(rp, pp);
